@@ -29,6 +29,7 @@ type Lexer struct {
 	nextToken        func(*Lexer) token.Token
 	hadNewlineBefore bool     // tracks if we just consumed a newline
 	leadingComments  []string // leading comments before the token
+	carriedComments  []string // comments found in front of a semicolon: they go with the token after it
 }
 
 func newWithOptions(input string, interceptors ...Interceptor) *Lexer {
@@ -86,7 +87,8 @@ func (l *Lexer) PeekChar() byte {
 // readLeadingComments reads leading comments (it includes collapsed blank lines)
 func (l *Lexer) readLeadingComments() {
 	l.hadNewlineBefore = false
-	l.leadingComments = nil
+	l.leadingComments = l.carriedComments
+	l.carriedComments = nil
 	for {
 		// read whitespaces
 		for isWhitespace(l.CurrentChar) {
@@ -460,7 +462,14 @@ func (l *Lexer) readRawString() string {
 // NextToken generates and returns the next token from the input stream.
 func (l *Lexer) NextToken() token.Token {
 	l.readLeadingComments()
-	return l.nextToken(l)
+	tok := l.nextToken(l)
+	if tok.Type == token.SEMICOLON && len(tok.LeadingComments) > 0 {
+		// a semicolon is not kept in the tree: the comments in front of it belong to
+		// whatever follows it
+		l.carriedComments = tok.LeadingComments
+		tok.LeadingComments = nil
+	}
+	return tok
 }
 
 func (l *Lexer) useTokenInterceptor(interceptor Interceptor) {
